@@ -787,6 +787,12 @@ def r4(ctx):
                     e_ = endian_of(f, v.args[0])
                     if e_ is not None:
                         out.append((f, st.path, v, e_))
+            # a factory helper that hands the freshly constructed reader / writer back (`return BufferReader("<", body)`)
+            for r_ in walk(f.node):
+                if isinstance(r_, ast.Return) and isinstance(r_.value, ast.Call) and call_attr(r_.value) == cname and r_.value.args:
+                    e_ = endian_of(f, r_.value.args[0])
+                    if e_ is not None:
+                        out.append((f, "<returned>", r_.value, e_))
         return out
     w_ctors = ctors(sfs, "BufferWriter")
     # header writer: the one (in serialize) that receives the flags byte; body writer: the one handed to _serialize_block
@@ -1919,21 +1925,71 @@ def r19(ctx):
     for k in repo.mro(ci):
         for nm, f in k.methods.items():
             meths.setdefault(nm, f)
+    # helpers and collaborator classes of the deserializer's module take part too (block reading moved out of the class)
+    pool = list(meths.values())
+    for g in repo.all_funcs:
+        if g.module is ci.module and g.parent_fn is None and all(g is not x for x in pool):
+            pool.append(g)
+
+    def builds(f):
+        return any(isinstance(c.func, ast.Attribute) and c.func.attr in ("add_block", "create_block_list") for c in calls(f.node))
+
+    def expanded_names(f):
+        """locals of f that hold the result of zero_code_expand applied under the .zerocoded fact"""
+        out = set()
+        for st_ in stores(f.node, into_defs=False):
+            if st_.kind == "assign" and "." not in st_.path and st_.value is not None and any(
+                    isinstance(c, ast.Call) and call_attr(c) == "zero_code_expand" and has_path_fact(c, "zerocoded", True, f.node)
+                    for c in ast.walk(st_.value)):
+                out.add(st_.path)
+        return out
+
+    def is_factory(g):
+        """hands back a reader / body built from the expanded body (`return BufferReader("<", raw_body)` after the expansion)"""
+        names = expanded_names(g)
+        return not builds(g) and bool(names) and any(
+            isinstance(r, ast.Return) and r.value is not None and any(isinstance(n, ast.Name) and n.id in names for n in ast.walk(r.value))
+            for r in walk(g.node))
+
+    def called_name(c):
+        return c.func.attr if isinstance(c.func, ast.Attribute) else c.func.id if isinstance(c.func, ast.Name) else None
 
     def expands(f):
-        return any(has_path_fact(c, "zerocoded", True, f.node) for c in find_calls(f.node, "zero_code_expand"))
+        if any(has_path_fact(c, "zerocoded", True, f.node) for c in find_calls(f.node, "zero_code_expand")):
+            return True
+        # ... or it gets its reader / body from a factory helper that does (`reader = self._make_body_reader(msg, raw_body)`)
+        return any(g is not f and g.name == called_name(c) and is_factory(g) for c in calls(f.node) for g in pool)
 
     def callers(f):
-        return [g for g in meths.values() if g is not f and any(
-            isinstance(c.func, ast.Attribute) and isinstance(c.func.value, ast.Name) and c.func.value.id in ("self", "cls")
-            and c.func.attr == f.name for c in calls(g.node))]
+        # by name, whatever the receiver (self.x(..), x(..), Helper(..).x(..)); constructing a collaborator counts as
+        # calling its __init__
+        names = {f.name} | ({f.cls.name} if f.cls is not None and f.name == "__init__" else set())
+        return [g for g in pool if g is not f and any(called_name(c) in names for c in calls(g.node))]
+
+    def hands_down(g, f, depth):
+        """every call of f in g passes a body g expanded itself, or a parameter of g that arrives expanded"""
+        names = {f.name} | ({f.cls.name} if f.cls is not None and f.name == "__init__" else set())
+        mine = expanded_names(g)
+        params = {a.arg for a in g.node.args.args}
+        ok_all = True
+        for c in calls(g.node):
+            if called_name(c) not in names:
+                continue
+            argn = {n.id for a in list(c.args) + [k.value for k in c.keywords] for n in ast.walk(a) if isinstance(n, ast.Name)}
+            direct = any(isinstance(x, ast.Call) and call_attr(x) == "zero_code_expand" for a in c.args for x in ast.walk(a))
+            if direct or (argn & mine):
+                continue
+            if (argn & params) and behind(g, depth + 1):
+                continue
+            ok_all = False
+        return ok_all
 
     def behind(f, depth=0):
         if expands(f):
             return True
         cs = callers(f)
-        return bool(cs) and depth < 3 and all(behind(g, depth + 1) for g in cs)
-    builders = [f for f in meths.values()
+        return bool(cs) and depth < 3 and all(hands_down(g, f, depth) for g in cs)
+    builders = [f for f in pool
                 if any(isinstance(c.func, ast.Attribute) and c.func.attr in ("add_block", "create_block_list") for c in calls(f.node))]
     ctx.floor("C01.R19", "block-building methods of the deserializer", len(builders), 1)
     for f in sorted(builders, key=lambda g: g.name):
